@@ -97,6 +97,7 @@ type Config struct {
 }
 
 type Interp struct {
+	skipIntrinsic string // name of a function whose intrinsic is bypassed for the next call (the real body runs)
 	prog    *ssa.Program
 	tt      *TermTable
 	solver  *Solver
@@ -857,7 +858,10 @@ func (in *Interp) callSSA(caller *frame, fn *ssa.Function, args []Value, env []V
 		// other packages are initialised lazily, on first access to a global
 		return nil
 	}
-	if intr := lookupIntrinsic(fn, name); intr != nil {
+	if in.skipIntrinsic == name {
+		// an intrinsic asked for the real body this once
+		in.skipIntrinsic = ""
+	} else if intr := lookupIntrinsic(fn, name); intr != nil {
 		in.stubsHit[name]++
 		return intr(in, caller, fn, args)
 	}
